@@ -1,6 +1,8 @@
 package scanner
 
 import (
+	"fmt"
+
 	"github.com/jsightapi/jsight-schema-core/bytes"
 	"github.com/jsightapi/jsight-schema-core/fs"
 	"github.com/jsightapi/jsight-schema-core/kit"
@@ -101,7 +103,14 @@ func stateEnumBodyEnded(s *Scanner, c byte) *jerr.JApiError {
 	}
 }
 
-func (s *Scanner) readEnumWithJsc() (uint, *jerr.JApiError) {
+func (s *Scanner) readEnumWithJsc() (l uint, je *jerr.JApiError) {
+	defer func() {
+		// The enum scanner of jsight-schema-core may panic on a malformed tail (e.g. "[1] /*/").
+		if r := recover(); r != nil {
+			l, je = 0, s.japiErrorBasic(fmt.Sprintf("invalid enum: %v", r))
+		}
+	}()
+
 	fc := s.file.Content()
 	file := fs.NewFile("", fc.Sub(s.curIndex, fc.LenIndex()))
 
